@@ -9,6 +9,29 @@ from ...spaces import Points
 BARY_ATOL = 1e-5
 
 
+def _bary_atol(origin, dir_1, dir_2):
+    """Absolute tolerance (one value per row) for deciding that a barycentric coordinate
+    of a float32 point equals 0 or 1. The rounding error of the point, about 6e-8 times
+    its largest coordinate, is divided by the edge lengths when the barycentric
+    coordinates are computed: for shapes that are small compared to their distance from
+    the origin it exceeds BARY_ATOL, which therefore is only the lower bound."""
+    largest = torch.amax(torch.abs(origin), dim=1, keepdim=True)
+    for direction in (dir_1, dir_2):
+        corner = torch.amax(torch.abs(origin + direction), dim=1, keepdim=True)
+        largest = torch.maximum(largest, corner)
+    det = torch.abs(dir_1[:, :1] * dir_2[:, 1:] - dir_1[:, 1:] * dir_2[:, :1])
+    length = torch.maximum(
+        torch.sum(torch.abs(dir_1), dim=1, keepdim=True),
+        torch.sum(torch.abs(dir_2), dim=1, keepdim=True),
+    )
+    return torch.clamp(2.5e-7 * largest * length / det, min=BARY_ATOL)
+
+
+def _bary_close(bary_coord, value, atol):
+    # torch.isclose(bary_coord, value, atol=atol) for a tolerance given per row
+    return torch.abs(bary_coord - value) <= atol + 1e-5 * abs(value)
+
+
 class Parallelogram(Domain):
     """Class for arbitrary parallelograms, even if time dependet
     will always stay a parallelogram.
@@ -182,17 +205,16 @@ class ParallelogramBoundary(BoundaryDomain):
         points = points[:, list(self.space.keys())].as_tensor
         points -= origin
         bary_x, bary_y = self.domain._solve_lgs(points, dir_1, dir_2)
-        x_close = self._bary_coords_close_to_0_or_1(bary_x, bary_y)
-        y_close = self._bary_coords_close_to_0_or_1(bary_y, bary_x)
+        atol = _bary_atol(origin, dir_1, dir_2)
+        x_close = self._bary_coords_close_to_0_or_1(bary_x, bary_y, atol)
+        y_close = self._bary_coords_close_to_0_or_1(bary_y, bary_x, atol)
         return torch.logical_or(x_close, y_close)
 
-    def _bary_coords_close_to_0_or_1(self, bary_coord1, bary_coord2):
+    def _bary_coords_close_to_0_or_1(self, bary_coord1, bary_coord2, atol=BARY_ATOL):
         # the edge includes its end points (the corners), up to the same tolerance
-        between_0_1 = torch.logical_and(
-            -BARY_ATOL <= bary_coord2, bary_coord2 <= 1 + BARY_ATOL
-        )
-        close_to_0 = torch.isclose(bary_coord1, torch.tensor(0.0), atol=BARY_ATOL)
-        close_to_1 = torch.isclose(bary_coord1, torch.tensor(1.0), atol=BARY_ATOL)
+        between_0_1 = torch.logical_and(-atol <= bary_coord2, bary_coord2 <= 1 + atol)
+        close_to_0 = _bary_close(bary_coord1, 0.0, atol)
+        close_to_1 = _bary_close(bary_coord1, 1.0, atol)
         return torch.logical_and(torch.logical_or(close_to_1, close_to_0), between_0_1)
 
     def _get_volume(self, params=Points.empty(), device="cpu"):
@@ -280,13 +302,14 @@ class ParallelogramBoundary(BoundaryDomain):
         bary_x, bary_y = self.domain._solve_lgs(points - origin, dir_1, dir_2)
         normal_dir_1 = self._get_normal_direction(dir_1, device)
         normal_dir_2 = -self._get_normal_direction(dir_2, device)
+        atol = _bary_atol(origin, dir_1, dir_2)
         # compute for each point what the normal vector should be, by checking the
         # value of the local barycentric coordinate = 0 or 1
         self._add_local_normal_vector(
-            normals, bary_x, bary_y, normal_dir_1, normal_dir_2, 0.0
+            normals, bary_x, bary_y, normal_dir_1, normal_dir_2, 0.0, atol
         )
         self._add_local_normal_vector(
-            normals, bary_x, bary_y, normal_dir_1, normal_dir_2, 1.0
+            normals, bary_x, bary_y, normal_dir_1, normal_dir_2, 1.0, atol
         )
         # the rotated edge directions point outwards only if the corners are ordered
         # counter clockwise; the sign of the determinant corrects the other case
@@ -297,14 +320,10 @@ class ParallelogramBoundary(BoundaryDomain):
         return torch.divide(normals, torch.linalg.norm(normals, dim=1).reshape(-1, 1))
 
     def _add_local_normal_vector(
-        self, normals, bary_x, bary_y, normal_dir_1, normal_dir_2, i
+        self, normals, bary_x, bary_y, normal_dir_1, normal_dir_2, i, atol=BARY_ATOL
     ):
-        y_close_i = torch.where(
-            torch.isclose(bary_y, torch.tensor(i), atol=BARY_ATOL), 2 * i - 1, 0.0
-        )
-        x_close_i = torch.where(
-            torch.isclose(bary_x, torch.tensor(i), atol=BARY_ATOL), 2 * i - 1, 0.0
-        )
+        y_close_i = torch.where(_bary_close(bary_y, i, atol), 2 * i - 1, 0.0)
+        x_close_i = torch.where(_bary_close(bary_x, i, atol), 2 * i - 1, 0.0)
         normals += normal_dir_1 * y_close_i
         normals += normal_dir_2 * x_close_i
 
